@@ -373,7 +373,11 @@ impl R {
             }
             Expr::Neg(inner) => {
                 self.term("-", Kind::Op, Slot::Ws, sep, false);
+                // `-` followed by anything but a letter or digit is the scope-start identifier
+                // `-` in the assembler's grammar, so no trivia may follow the prefix minus
+                let before = self.out.terms.len();
                 self.expr_ctx(inner, "");
+                self.out.terms[before].slot = Slot::None;
             }
             Expr::Call(name, args) => {
                 // the parser accepts multi-line trivia before a function name; only single-line
